@@ -281,6 +281,12 @@ func (e *Enc) havocAssigns(fr *Frame, con *FuncContract, env *evalEnv, st *State
 		e.havocAll(st, why)
 		return
 	}
+	// what is passed to the callee may be written by it
+	for _, a := range args {
+		for _, t := range a.T {
+			e.markEscaped(t, 0)
+		}
+	}
 	for _, cl := range con.assigns {
 		if cl.kind == "assigns-any" {
 			r, err := e.anyReg(env, cl.text)
@@ -289,7 +295,16 @@ func (e *Enc) havocAssigns(fr *Frame, con *FuncContract, env *evalEnv, st *State
 				e.havocAll(st, why)
 				return
 			}
-			e.setReg(st, r, tb.Fresh("hv_any_"+why, r.sort))
+			before := e.reg(st, r)
+			nw := tb.Fresh("hv_any_"+why, r.sort)
+			// objects this function allocated and never handed out (no store of the reference, not an argument of
+			// any call) cannot be reached by the callee
+			for _, a := range e.allocs {
+				if !a.escaped && e.regHoldsAlloc(r, a) {
+					nw = tb.Store(nw, a.ref, tb.Select(before, a.ref))
+				}
+			}
+			e.setReg(st, r, nw)
 			continue
 		}
 		sv, err := env.evalAny(cl.expr)
@@ -923,6 +938,11 @@ func (e *Enc) libraryCall(fr *Frame, x *ssa.Call, callee *ssa.Function, args []V
 func (e *Enc) makeClosure(fr *Frame, x *ssa.MakeClosure, st *State) {
 	tb := e.tb
 	fn := x.Fn.(*ssa.Function)
+	for _, b := range x.Bindings { // whoever gets the function value can reach the captured variables
+		for _, t := range e.val(fr, b).T {
+			e.markEscaped(t, 0)
+		}
+	}
 	c := tb.Fresh("clo_"+fn.Name(), "Fn")
 	e.assume(tb.True(), tb.Not(tb.Eq(c, tb.Const("nilFn", "Fn"))))
 	fr.vals[x] = Val{T: []*Term{c}}
@@ -1019,6 +1039,25 @@ func (e *Enc) closureAtCreation(fr *Frame, x *ssa.MakeClosure, c *Term, st *Stat
 			vv = aenv.convertUntyped(vv, tv.typ)
 		}
 		e.assume(st.reach, tb.Eq(tv.t, vv.t))
+	}
+	for _, cl := range spec.when {
+		wenv := e.envAt(fr, st, nil)
+		for i, fv := range fn.FreeVars {
+			if _, have := wenv.vars[fv.Name()]; have || i >= len(x.Bindings) {
+				continue
+			}
+			if pt, okp := fv.Type().Underlying().(*types.Pointer); okp {
+				ad := e.addrOf(e.val(fr, x.Bindings[i]), pt.Elem())
+				wenv.vars[fv.Name()] = SV{t: e.load(st, ad), typ: pt.Elem(), addr: ad}
+			}
+		}
+		t, err := wenv.evalBool(cl.expr)
+		if err != nil {
+			e.contractError(fr, "closure-spec:"+label, err)
+			continue
+		}
+		q := e.oblige("assert", cl.label, st, t, x.Pos(), e.inputVals()...)
+		q.Text = "the literal `" + label + "` is created only when " + cl.text
 	}
 	if spec.trusted {
 		e.modelled("TRUSTED function literal (ghost attributes assumed, body not verified): " + label)
@@ -1158,6 +1197,38 @@ func (e *Enc) closureAtCreation(fr *Frame, x *ssa.MakeClosure, c *Term, st *Stat
 			continue
 		}
 		q := e.oblige("closure", fmt.Sprintf("%s.%s.%s", label, tc.key, clauseLabel("ensures", k, cl)), &out, t, x.Pos(), e.inputVals()...)
+		q.Text = cl.text
+	}
+	for _, cl := range spec.returns {
+		renv2 := e.typeContractEnv(tc, sig, fv, ftype, args, res, &out, &pre)
+		cenv := e.envAt(fr, &before, nil)
+		for i, fvv := range fn.FreeVars {
+			if _, have := cenv.vars[fvv.Name()]; have || i >= len(binds) {
+				continue
+			}
+			if pt, okp := fvv.Type().Underlying().(*types.Pointer); okp {
+				ad := e.addrOf(binds[i], pt.Elem())
+				cenv.vars[fvv.Name()] = SV{t: e.load(&before, ad), typ: pt.Elem(), addr: ad}
+			}
+		}
+		for k, v := range cenv.vars {
+			if _, have := renv2.vars[k]; !have {
+				renv2.vars[k] = v
+			}
+		}
+		if renv2.oldVars != nil {
+			for k, v := range cenv.vars {
+				if _, have := renv2.oldVars[k]; !have {
+					renv2.oldVars[k] = v
+				}
+			}
+		}
+		t, err := renv2.evalBool(cl.expr)
+		if err != nil {
+			e.contractError(fr, "closure-spec:"+label, err)
+			continue
+		}
+		q := e.oblige("closure", fmt.Sprintf("%s.%s", label, cl.label), &out, t, x.Pos(), e.inputVals()...)
 		q.Text = cl.text
 	}
 	e.modelled("function literals are verified at their creation site; captured variables keep the value they had when the literal was created")
